@@ -17,7 +17,27 @@ def gen_targets_string(rng):
         else: parts.append(rng.choice(TARGETS))
     return ','.join(parts)
 
-def gen_leaf(rng, for_global):
+def model_case(case):
+    """an absent GLOBAL layer (`Option::None`, leaf N) has no opinion: to the model it is a layer that accepts everything and
+    gives no hint (`F05h-`)"""
+    if ' ;; ' not in case: return case
+    st, ops = case.split(' ;; ')
+    toks = st.split(); gslots = set()
+    for i, t in enumerate(toks):
+        m = re.match(r'RG(\d+):(.*)$', t)
+        if m:
+            gslots.add(m.group(1))
+            if m.group(2) == 'N': toks[i] = 'RG%s:F05h-' % m.group(1)
+        elif t == 'GN': toks[i] = 'GF05h-'
+    o2 = []
+    for op in ops.split(' ; '):
+        w = op.split()
+        if w and w[0] == 'rl' and w[1] in gslots and w[2:] == ['N']: op = 'rl %s F05h-' % w[1]
+        o2.append(op)
+    return ' '.join(toks) + ' ;; ' + ' ; '.join(o2)
+
+def gen_leaf(rng, for_global, allow_none=False):
+    if for_global and allow_none and rng.random() < 0.2: return 'N'
     r = rng.random()
     if r < 0.35: return 'L%d' % rng.randrange(0, 6)
     if r < 0.55: return 'T' + hx(gen_targets_string(rng))
@@ -44,15 +64,24 @@ def gen_case(rng):
     k = rng.choice([1, 2, 2, 3, 3, 4])
     slots = []          # 'G' / 'F'
     toks = []
+    # stacks of plain and global layers only may contain ABSENT global layers (Option::None), also as old / new value of a
+    # reload; next to per-layer-filtered layers an absent layer is the region of finding F32 (C08), kept out of this stream
+    plain = rng.random() < 0.25
     for n in range(1, k + 1):
         r = rng.random()
-        if r < 0.2: toks.append('P%d' % n)
+        if plain:
+            if r < 0.35: toks.append('P%d' % n)
+            elif r < 0.5: toks.append('G' + gen_leaf(rng, True, True))
+            else: toks.append('RG%d:%s' % (len(slots), gen_leaf(rng, True, True))); slots.append('G')
+        elif r < 0.2: toks.append('P%d' % n)
         elif r < 0.3: toks.append('G' + gen_leaf(rng, True))
         elif r < 0.45: toks += ['F%d' % n] + gen_expr(rng, 1) + ['.']
         elif r < 0.7: toks.append('RG%d:%s' % (len(slots), gen_leaf(rng, True))); slots.append('G')
         else: toks += ['RF%d:%d' % (len(slots), n)] + gen_expr(rng, 1) + ['.']; slots.append('F')
+    if plain and not any(t.startswith('P') for t in toks): toks.insert(0, 'P9')
     if not slots:
-        toks += ['RF0:%d' % (k + 1)] + gen_expr(rng, 1) + ['.']; slots.append('F')
+        if plain: toks.append('RG0:%s' % gen_leaf(rng, True, True)); slots.append('G')
+        else: toks += ['RF0:%d' % (k + 1)] + gen_expr(rng, 1) + ['.']; slots.append('F')
     cs_pool = rng.sample(range(30), rng.choice([4, 8, 12]))
     ops = []
     nops = rng.choice([12, 25, 40])
@@ -63,7 +92,7 @@ def gen_case(rng):
             ops.append('em %d %d %d' % (rng.randrange(3), rng.choice(cs_pool), rng.randrange(2)))
         elif r < 0.85:
             h = rng.randrange(len(slots))
-            v = gen_leaf(rng, True) if slots[h] == 'G' else ' '.join(gen_expr(rng, rng.choice([0, 1, 2])))
+            v = gen_leaf(rng, True, plain) if slots[h] == 'G' else ' '.join(gen_expr(rng, rng.choice([0, 1, 2])))
             ops.append('rl %d %s' % (h, v))
         elif r < 0.97:
             ops.append('cur')
@@ -193,6 +222,7 @@ def extra(tier, seed, rng, res, broken):
 
 _s = Stream('hist', 'h_reload', gen=gen, per_process=True, nontrivial=nontrivial, spec_mode='spec')
 _s.spec_match = _match
+_s.model_case = model_case
 
 PROPERTY = {
     'manifest': {
